@@ -87,6 +87,12 @@ func (p *c20) Gen(seed uint64, i int, tier string) (any, bool) {
 			sc.Server.Rules = append(sc.Server.Rules, refsmtpd.Rule{Verb: "QUIT", Nth: 1, Action: sim.Pick(r, []refsmtpd.Action{{Code: 421, Text: "closing"}, {Code: 500, Text: "what?"}, {Kind: "drop"}})})
 		}
 	}
+	if sc.Op == "send" && r.Chance(1, 6) {
+		// the caller's own smtp.Client, handed over before anything was said on it; without the
+		// NOOP probe the first command of the send is what makes the client introduce itself
+		sc.Op = "sendwith"
+		sc.Client.NoNoop = r.Chance(2, 3)
+	}
 	caps := []string{"8BITMIME"}
 	esc := false
 	target := r.Intn(nm)
@@ -136,6 +142,11 @@ func (p *c20) Gen(seed uint64, i int, tier string) (any, bool) {
 				continue
 			}
 			for k := range batch[m].To {
+				if r.Chance(1, 6) {
+					// accepted, with one of the other 25z codes
+					sc.Server.Rules = append(sc.Server.Rules, refsmtpd.Rule{Verb: "RCPT", Nth: nth("RCPT", m, k), Action: refsmtpd.Action{Code: sim.Pick(r, []int{251, 252}), Text: "user not local; will forward"}})
+					continue
+				}
 				if r.Chance(1, 2) {
 					code := 400 + r.Intn(200)
 					sc.Server.Rules = append(sc.Server.Rules, refsmtpd.Rule{Verb: "RCPT", Nth: nth("RCPT", m, k), Action: c20Action(code, sim.Pick(r, c20Forms))})
